@@ -189,20 +189,38 @@ def run(ctx):
                    [site(td, p) for p in push],
                    what='SQL DELETE buffers row handlers taken from a scan that pinned an older snapshot: after a compaction in between '
                         'the delete vectors point at row-sets that are gone and the acknowledged DELETE removes nothing')
+            # the same for a row that a concurrent DELETE removed between the child scan's pin and this transaction's pin
+            look2 = [c.bb for c in td.calls if (c.fn or '').endswith('Snapshot::get_dvs_of')]
+            resolves = bool(prog.group_calls(td.root, suffix('VersionManager::get_dv')))
+            alive = False
+            if look2 and resolves:
+                errs = td.error_exit_blocks()
+                alive = all(td.dominated_by_any(set(look2), p) for p in push) and \
+                    any(td.reachable_from([l], avoid=set(push)) & errs for l in look2)
+            ctx.ob(R4, 'DELETE·victims-alive-in-own-snapshot', own_scan or alive,
+                   f'DeleteExecutor scans through its own transaction: {own_scan}; SecondaryTransaction::delete looks the row up in the delete '
+                   f'vectors of its snapshot before buffering it (get_dvs_of at {look2}, DV objects resolved: {resolves}, push at {push}): {alive}',
+                   [site(td, p) for p in push],
+                   what='SQL DELETE buffers handlers of rows that a concurrent DELETE has already removed (its child scan pinned the older '
+                        'snapshot, the deleting transaction a newer one): both statements report the rows as deleted by them - two concurrent '
+                        '`delete from t where v < 3` on rows 1,2,3 both answer 2')
 
     R6 = 'C09-R6'
     ctx.rule(R6, 'whoever retires row-sets of a table holds that table\'s lock: every function that emits EpochOp::DeleteRowSet either is '
                  'compact_table (called under the try_lock guard, R2) or acquires lock_for_deletion itself, before it pins the version and '
-                 'before commit_changes; an unlocked DROP TABLE lets a compaction in flight commit a row-set into a table that is gone')
+                 'before commit_changes (the emitter of EpochOp::DropTable counts: commit_changes retires the row-sets of that table for it); an unlocked DROP TABLE lets a compaction in flight commit a row-set into a table that is gone')
     EPOCHOP_ = SEC + 'version_manager::EpochOp'
-    emitters = sorted({bd.root for bd in prog.bodies.values() if any(True for _ in bd.aggregates(EPOCHOP_, 'DeleteRowSet'))})
-    ctx.floor(R6, len(emitters), 2, 'functions emitting EpochOp::DeleteRowSet')
+    # DROP TABLE: since the row-sets of a dropped table are retired inside commit_changes (arm of EpochOp::DropTable), the function
+    # that retires them is the emitter of EpochOp::DropTable on the statement path (bootstrap only replays)
+    emitters = sorted({bd.root for bd in prog.bodies.values() if any(True for _ in bd.aggregates(EPOCHOP_, 'DeleteRowSet'))
+                       or (any(True for _ in bd.aggregates(EPOCHOP_, 'DropTable')) and not bd.root.endswith('::bootstrap'))})
+    ctx.floor(R6, len(emitters), 2, 'functions emitting EpochOp::DeleteRowSet / EpochOp::DropTable')
     for r in emitters:
         if r.endswith('Compactor::compact_table'):
             ctx.ob(R6, f'{r}·under-lock', True, 'compact_table: called only under the try_lock_for_compaction guard (C09-R2)')
             continue
         grp = [g for g in prog.group(r)]
-        main = next((g for g in grp if any(True for _ in g.aggregates(EPOCHOP_, 'DeleteRowSet'))), None)
+        main = next((g for g in grp if any(True for _ in g.aggregates(EPOCHOP_, 'DeleteRowSet')) or any(True for _ in g.aggregates(EPOCHOP_, 'DropTable'))), None)
         locks = []
         for l in LOCKS:
             locks += done_sites(prog, main, l)
